@@ -33,7 +33,8 @@ const (
 	EValidate     = "ValidateStruct"
 	ERuleFirst    = "ValidStructForRule"
 	EMyFn         = "ValidStructForMyValidFn"
-	EChain        = "NewVStruct.SetRule.SetRule.Valid" // the builder API used directly: the second SetRule for the same target replaces the first
+	EChain        = "NewVStruct.SetRule.SetRule.Valid"           // the builder API used directly: the second SetRule for the same target replaces the first
+	EVarChain     = "NewVVar.SetRules.SetRules.SetValidFn.Valid" // the builder API used directly: rules accumulate
 	EVar          = "Var"
 	EVarForFn     = "VarForFn"
 	EMap          = "Map"
@@ -97,14 +98,15 @@ func mkValue(t, v int) interface{} {
 
 // args are the freshly built arguments of one execution.
 type args struct {
-	src   interface{}
-	rule  valid.RM
-	rule2 valid.RM // EChain: the rule map of the second SetRule
-	fns   valid.Name2FnMap
-	nest  map[interface{}]valid.RM
-	rules []string
-	str   string
-	strs  []string
+	src      interface{}
+	rule     valid.RM
+	rule2    valid.RM // EChain: the rule map of the second SetRule
+	ruleArgs []string // rule set 7: the slice that was spread into RM.Set, kept by the caller
+	fns      valid.Name2FnMap
+	nest     map[interface{}]valid.RM
+	rules    []string
+	str      string
+	strs     []string
 	// Unordered: the call iterates a Go map with more than one entry (or has
 	// >= 2 either/botheq groups): clause order is unspecified
 	unordered bool
@@ -262,10 +264,14 @@ func (c Call) build() *args {
 			rv := reflect.ValueOf(v).Elem()
 			arr := reflect.New(reflect.ArrayOf(2, rv.Type())).Elem()
 			arr.Index(0).Set(rv)
-			arr.Index(1).Set(reflect.ValueOf(mkv(c.Val+3)).Elem())
+			arr.Index(1).Set(reflect.ValueOf(mkv(c.Val + 3)).Elem())
 			a.src = arr.Interface()
 		}
 		a.rule = mkRule(c.Rule)
+		if c.Rule == 7 {
+			a.ruleArgs = multiSetRules()
+			a.rule = valid.NewRule().Set("Name,Code", a.ruleArgs...)
+		}
 		a.fns = mkFns(c.Fn)
 		if c.Entry == EChain {
 			a.rule2 = mkRule(1 + (c.Rule+c.Val)%(len(ruleSets)-1))
@@ -289,9 +295,13 @@ func (c Call) build() *args {
 		case "Cart", "Deep":
 			a.unordered = true
 		}
-	case c.Entry == EVar || c.Entry == EVarForFn:
+	case c.Entry == EVar || c.Entry == EVarForFn || c.Entry == EVarChain:
 		a.src = varVals[c.Val%len(varVals)]()
 		a.rules = append([]string(nil), varRules[c.Rule%len(varRules)]...)
+		if c.Entry == EVarChain {
+			a.strs = append([]string(nil), varRules[(c.Rule+1+c.Val)%len(varRules)]...)
+			a.fns = mkFns(c.Fn)
+		}
 	case c.Entry == EMap || c.Entry == EMapFn:
 		// 1..3 entries, all with the same value and the same rule
 		n := 1 + c.Val%3
@@ -443,6 +453,14 @@ func (c Call) Exec() (res Result) {
 		errRes(v.Valid(a.src))
 	case EVar:
 		errRes(valid.Var(a.src, a.rules...))
+	case EVarChain:
+		v := valid.NewVVar().SetRules(a.rules...).SetRules(a.strs...)
+		for _, k := range []string{"odd", "even", "required"} {
+			if f, ok := a.fns[k]; ok {
+				v.SetValidFn(k, f)
+			}
+		}
+		errRes(v.Valid(a.src))
 	case EVarForFn:
 		errRes(valid.VarForFn(a.src, oddFn("varfn")))
 	case EMap:
@@ -479,6 +497,8 @@ func (c Call) Exec() (res Result) {
 		res.Mutated = fmt.Sprintf("the value passed in was modified: %s", valid.GetDumpStructStrForJson(a.src))
 	case !reflect.DeepEqual(a.rule, b.rule):
 		res.Mutated = fmt.Sprintf("the rule map passed in was modified: %v, built as %v", a.rule, b.rule)
+	case a.ruleArgs != nil && !reflect.DeepEqual(a.ruleArgs, multiSetRules()):
+		res.Mutated = fmt.Sprintf("the slice spread into RM.Set was modified: %q", a.ruleArgs)
 	case !reflect.DeepEqual(a.rule2, b.rule2):
 		res.Mutated = fmt.Sprintf("the rule map passed to the second SetRule was modified: %v, built as %v", a.rule2, b.rule2)
 	case !reflect.DeepEqual(a.rules, b.rules) || !reflect.DeepEqual(a.strs, b.strs) || a.str != b.str:
